@@ -154,6 +154,7 @@ func sxResView(r jsonapi.Resource) string {
 		rs[i] = lst(hx(k), sxRel(rels[k]))
 		vs = append(vs, lst(hx(k), sxVal(r.Get(k))))
 	}
+	sort.Strings(vs) // by hex key: same order as the driver's sort by key
 	id, _ := r.Get("id").(string)
 	return lst(hx(r.GetType().Name), hx(id), lst(as...), lst(rs...), lst(vs...))
 }
